@@ -25,3 +25,10 @@ package webdoc
 //@   ensures [C06] #table-carries-page-url typeis(db.document.Elements[len(db.document.Elements)-1], *Table) &&
 //@              as(db.document.Elements[len(db.document.Elements)-1], *Table).PageURL == db.pageURL &&
 //@              as(db.document.Elements[len(db.document.Elements)-1], *Table).Element == table
+
+//@ func (*Text).GetTextNodes()
+//@   inline
+
+//@ func (*Text).GenerateOutput(textOnly)
+//@   requires [C01] wfText(t)
+//@   loop 0 invariant clonedRoot != nil && fresh(clonedRoot) && wfText(t)
